@@ -387,14 +387,17 @@ func incrRun(in []byte) (interface{}, error) {
 		ms = append(ms, m...)
 		steps += st
 		drifts += dr
-		hangs := 0
+		hangs, l1 := 0, 0
 		for _, x := range ms {
 			if x.Kind == "hang" {
 				hangs++
 			}
+			if x.Kind == "L1" {
+				l1++
+			}
 		}
-		if hangs >= 3 {
-			break
+		if hangs >= 3 || l1 >= 12 {
+			break // the verdict is in; every further aborted / hung behaviour costs a watchdog period and adds nothing
 		}
 	}
 	out["paths"] = len(cfg.Paths)
